@@ -4,7 +4,9 @@
 // bound: one persistent store, two documents, two authors, 6 keys with out-of-order timestamps and deletion markers (the newest entry of
 // an author is not at its greatest key; a marker is the newest entry of a key another author also wrote); the database is re-opened with
 // the head table deleted, with the by-key index deleted, with both deleted, with nothing deleted, and twice in a row. Heads (author,
-// timestamp) and all key-ordered queries must answer as on the store that maintained the tables (distinct timestamps per author).
+// timestamp) and all key-ordered queries must answer as on the store that maintained the tables (distinct timestamps per author); in the second
+// document each author's newest entry sits at its smallest key. Second part: a database with documents and authors but no record, derived tables
+// deleted: the first read after opening (four kinds) answers empty instead of failing.
 #[cfg(all(test, feature = "fs-store"))]
 mod verif_rp_c18_migrate {
     use super::tables::{LATEST_PER_AUTHOR_TABLE, RECORDS_BY_KEY_TABLE};
@@ -53,10 +55,12 @@ mod verif_rp_c18_migrate {
             for ns in &docs {
                 let mut r = store.new_replica(ns.clone()).unwrap();
                 // (author, key, ts, marker): newest entry of author 0 is `apple` (not its greatest key `zebra`); `doc/a` of author 0 is hidden by author 1's newer marker
-                let hist: [(usize, &[u8], u64, bool); 8] = [
-                    (0, b"zebra", 10, false), (0, b"apple", 30, false), (1, b"mango", 20, false), (1, b"kiwi", 5, false),
+                // in the second document each author's newest entry sits at its SMALLEST key (`aa` / `ab`)
+                let second = ns.id() == docs[1].id();
+                let hist: Vec<(usize, &[u8], u64, bool)> = [
+                    (0usize, &b"zebra"[..], 10u64, false), (0, b"apple", 30, false), (1, b"mango", 20, false), (1, b"kiwi", 5, false),
                     (0, b"doc/a", 40, false), (1, b"doc/a", 50, true), (0, b"doc/b", 45, false), (1, b"doc/c", 60, true),
-                ];
+                ].into_iter().chain(if second { vec![(0usize, &b"aa"[..], 70u64, false), (1, b"ab", 80, false)] } else { vec![] }).collect();
                 for (a, k, ts, marker) in hist {
                     let (hash, len) = if marker { (Hash::EMPTY, 0) } else { (Hash::new(k), 1) };
                     let e = SignedEntry::from_parts(ns, &authors[a], k, Record::new(hash, len, base + ts));
@@ -84,6 +88,39 @@ mod verif_rp_c18_migrate {
                     assert_eq!(got.1, expected[i].1, "WITNESS key-ordered / latest-per-key queries of document {i} after reopening (round {round}) with {what}");
                 }
                 store.flush().unwrap();
+            }
+        }
+    }
+
+    /// An older database without the derived tables and without any record (documents and authors only): the very first operation
+    /// after opening is a snapshot-based read (query, document list, author list) and must answer (empty), not fail.
+    #[tokio::test]
+    async fn old_database_without_records_answers_reads_right_after_opening() {
+        let mut rng = rand::rng();
+        let dbfile = tempfile::NamedTempFile::new().unwrap();
+        let ns = NamespaceSecret::new(&mut rng);
+        {
+            let mut store = Store::persistent(dbfile.path()).unwrap();
+            store.import_namespace(ns.clone().into()).unwrap();
+            store.new_author(&mut rng).unwrap();
+            store.flush().unwrap();
+        }
+        for variant in 0..3 {
+            let what = ["head table deleted", "by-key index deleted", "both derived tables deleted"][variant];
+            for first_op in 0..4 {
+                let file = copy_and_modify(dbfile.path(), |tx| {
+                    if variant == 0 || variant == 2 { tx.delete_table(LATEST_PER_AUTHOR_TABLE).unwrap(); }
+                    if variant == 1 || variant == 2 { tx.delete_table(RECORDS_BY_KEY_TABLE).unwrap(); }
+                });
+                let mut store = Store::persistent(file.path()).unwrap_or_else(|e| panic!("WITNESS an old database without records ({what}) does not open: {e:#}"));
+                let res: std::result::Result<usize, anyhow::Error> = match first_op {
+                    0 => store.get_many(ns.id(), Query::all()).map(|it| it.count()),
+                    1 => store.get_many(ns.id(), Query::single_latest_per_key()).map(|it| it.count()),
+                    2 => store.list_namespaces().map(|it| it.count()),
+                    _ => store.get_latest_for_each_author(ns.id()).map(|it| it.count()),
+                };
+                let n = res.unwrap_or_else(|e| panic!("WITNESS first read (kind {first_op}) after opening an old database without records ({what}) fails: {e:#}"));
+                assert_eq!(n, if first_op == 2 { 1 } else { 0 }, "WITNESS first read (kind {first_op}) after opening an old database without records ({what})");
             }
         }
     }
